@@ -375,9 +375,24 @@ class Interp:
             T('kw', k, self.termify(v)) for k, v in sorted(kwargs.items()))
         self.effect('call', name, targs)
         if name in self.pure_calls:
-            return T('call', name, *targs)
+            t = T('call', name, *targs)
+            self.may_raise(name, t)
+            return t
         self.fresh_n += 1
         return T('ret', name, self.fresh_n, *targs)
+
+    def may_raise(self, name, t):
+        """Fork on the exceptions a partial builtin/stdlib call is declared
+        (by the rule) to raise; both polarities are recorded so that the
+        table can be evaluated on concrete valuations."""
+        may = self.call_raises.get(name)
+        if not may:
+            return
+        c = self.choose(len(may) + 1)
+        if c > 0:
+            self.assumptions.append((T('raises', t, may[c - 1]), True))
+            raise AbsRaise(T('exc', may[c - 1], t))
+        self.assumptions.append((T('defined', t), True))
 
     def termify(self, v):
         if isinstance(v, (K, T, TupleV, ExtRef)):
